@@ -381,6 +381,9 @@ func funcsForProperty(cs *Contracts, prop string) []string {
 		if (prop == "C10" || prop == "C11") && len(cs.Shared) > 0 && fc.Mode != "" && !fc.Pure {
 			use = true // the access discipline (C10) and lock balance / callbacks-unlocked (C11) are checked in every function under contract
 		}
+		if prop == "C06" && fc.Mode != "" {
+			use = true // absence of run-time panics (safe.* obligations) is checked in every function under contract
+		}
 		for _, e := range fc.Ensures {
 			if hasTag(e.Tags, prop) {
 				use = true
